@@ -200,8 +200,9 @@ func c13Random(t *rapid.T) {
 	if _, ok := ref.KeySpecs[cmd]; !ok {
 		spec = ref.KeySpec{First: 1, Last: 1, Step: 1}
 	}
-	prefixes := rapid.SliceOfNDistinct(rapid.SampledFrom([]string{"a", "ab", "abc", "b", "{", "redis-shake", "k:", ""}), 0, 3, func(s string) string { return s }).Draw(t, "prefixes")
-	keyGen := rapid.OneOf(rapid.StringMatching(`(a|ab|abc|b|k:|c|\{)?[a-c]{0,3}`), rapid.SampledFrom([]string{"redis-shake-checkpoint", "redis-shake-checkpoint-abcd", "redis-shake", "", "a", "ab"}),
+	long70 := strings.Repeat("L", 70) // prefixes and keys well beyond any short fixed-size window
+	prefixes := rapid.SliceOfNDistinct(rapid.SampledFrom([]string{"a", "ab", "abc", "b", "{", "redis-shake", "k:", "", long70, long70[:65]}), 0, 3, func(s string) string { return s }).Draw(t, "prefixes")
+	keyGen := rapid.OneOf(rapid.StringMatching(`(a|ab|abc|b|k:|c|\{)?[a-c]{0,3}`), rapid.SampledFrom([]string{"redis-shake-checkpoint", "redis-shake-checkpoint-abcd", "redis-shake", "", "a", "ab", long70 + "x", long70[:69], long70[:64] + "Z", long70[:64]}),
 		rapid.Map(rapid.SliceOfN(rapid.Byte(), 0, 5), func(b []byte) string { return string(b) }))
 	nk := keyCount(spec, rapid.IntRange(1, 5).Draw(t, "nk"))
 	if nk < minKeys[cmd] {
